@@ -12,6 +12,8 @@
 //!  * `*_convert`: all ordered source -> target pairs x record set: reader(A) piped into writer(B)
 //!    (as in the util_*_rewrite examples), read again, equals the original document.
 
+mod grammar;
+
 use std::{
     collections::HashMap,
     io::{self, Read},
@@ -977,5 +979,29 @@ fn main() {
         }
         ctx.harness(Config::new("alignment_convert", 0), |ch| aln_convert(ch, &cdocs));
         ctx.harness(Config::new("variant_convert", 0), var_convert);
+
+        // the per-format record grammars through the whole conversion matrix (see grammar.rs):
+        // k = 1 over every (source, api, target) combination; thorough adds k = 2 over one setting per
+        // format (the BGZF layer does not see record shapes) and the heavy CIGAR shapes at k = 1
+        let acfg = grammar::AlnCfg::new(false, true);
+        ctx.harness(Config::new("alignment_convert_grammar", 1), |ch| grammar::aln_grammar(ch, &acfg));
+        let ccfg = grammar::AlnCfg::cram(true);
+        ctx.harness(Config::new("alignment_convert_grammar_cram", 1), |ch| grammar::aln_grammar(ch, &ccfg));
+        let vcfg = grammar::VarCfg::new((4, 3), false, true);
+        ctx.harness(Config::new("variant_convert_grammar", 1), |ch| grammar::var_grammar(ch, &vcfg));
+        if ctx.thorough() {
+            let acfg2 = grammar::AlnCfg::new(false, false);
+            ctx.harness(Config::new("alignment_convert_grammar_k2", 2), |ch| grammar::aln_grammar(ch, &acfg2));
+            let acfgh = grammar::AlnCfg::new(true, false);
+            ctx.harness(Config::new("alignment_convert_grammar_heavy", 1), |ch| grammar::aln_grammar(ch, &acfgh));
+            let ccfg2 = grammar::AlnCfg::cram(false);
+            ctx.harness(Config::new("alignment_convert_grammar_cram_k2", 2), |ch| grammar::aln_grammar(ch, &ccfg2));
+            let vcfg2 = grammar::VarCfg::new((4, 3), false, false);
+            ctx.harness(Config::new("variant_convert_grammar_k2", 2), |ch| grammar::var_grammar(ch, &vcfg2));
+            for ff in [(4, 2), (4, 4), (4, 5)] {
+                let v = grammar::VarCfg::new(ff, true, false);
+                ctx.harness(Config::new(format!("variant_convert_grammar_v{}{}", ff.0, ff.1), 1), |ch| grammar::var_grammar(ch, &v));
+            }
+        }
     });
 }
